@@ -746,6 +746,8 @@ func (g *Distinct) Process(ctx context.Context, man gdbi.Manager, in gdbi.InPipe
 	go func() {
 		defer close(out)
 		kv := man.GetTempKV()
+		// without a temporary store (work directory gone or full) the keys seen are kept in memory
+		seen := map[string]bool{}
 		for t := range in {
 			if t.IsSignal() {
 				out <- t
@@ -762,7 +764,12 @@ func (g *Distinct) Process(ctx context.Context, man gdbi.Manager, in gdbi.InPipe
 			}
 			k := bytes.Join(s, []byte{0x00})
 			if found && len(k) > 0 {
-				if !kv.HasKey(k) {
+				if kv == nil {
+					if !seen[string(k)] {
+						seen[string(k)] = true
+						out <- t
+					}
+				} else if !kv.HasKey(k) {
 					kv.Set(k, []byte{0x01})
 					out <- t
 				}
